@@ -19,6 +19,7 @@ func extraAgents(s *Sim) []Agent {
 	add("perp", &PerpAgent{newBase(s, "perp")})
 	add("liquidator", &LiquidatorAgent{baseAgent: newBase(s, "liquidator")})
 	add("commit", &CommitAgent{newBase(s, "commit")})
+	add("oraclechaos", &OracleChaosAgent{newBase(s, "oraclechaos")})
 	return out
 }
 
@@ -31,6 +32,8 @@ func extraMonitors(s *Sim) []Monitor {
 		newMonC12(s),
 		newMonC14(s),
 		&MonC15{},
+		newMonC16(s),
+		newMonSwaps(s),
 	}
 }
 
